@@ -18,9 +18,10 @@ var opNames = []string{"AddFirst", "AddLast", "AddHandler"}
 
 // opRec is one building operation; Hs are indices into the case's instance pool.
 type opRec struct {
-	Kind int   `json:"kind"`
-	Pos  int   `json:"pos"` // only for AddHandler
-	Hs   []int `json:"hs"`
+	Op   string `json:"op"`
+	Kind int    `json:"-"`
+	Pos  int    `json:"pos"` // only for AddHandler
+	Hs   []int  `json:"hs"`  // pool indices
 }
 
 func (o opRec) String() string {
@@ -177,8 +178,11 @@ func structure(pl netty.Pipeline, m *model, pool []elem) (out [][2]string) {
 			bad("C03:contextat-mismatch", "ContextAt(%d) is nil, model has %s there", i, m.name(i))
 			continue
 		}
-		if ctx.Handler() != m.els[i].h {
-			bad("C03:contextat-mismatch", "ContextAt(%d).Handler() is %T, model has %s there", i, ctx.Handler(), m.name(i))
+		h, usable := handlerOf(ctx)
+		if !usable {
+			bad("C03:contextat-mismatch", "ContextAt(%d) returned an unusable (nil-pointer) context, model has %s there", i, m.name(i))
+		} else if h != m.els[i].h {
+			bad("C03:contextat-mismatch", "ContextAt(%d).Handler() is %T, model has %s there", i, h, m.name(i))
 		}
 	}
 	for _, i := range []int{-1, n, n + 1} {
@@ -227,6 +231,16 @@ func structure(pl netty.Pipeline, m *model, pool []elem) (out [][2]string) {
 		bad("C03:lastindexof-mismatch", "LastIndexOf(always)=%d, want %d", got, n-1)
 	}
 	return out
+}
+
+// handlerOf is ctx.Handler(), surviving a typed-nil context.
+func handlerOf(ctx netty.HandlerContext) (h netty.Handler, usable bool) {
+	defer func() {
+		if recover() != nil {
+			usable = false
+		}
+	}()
+	return ctx.Handler(), true
 }
 
 func walkDiff(got []netty.Handler, m *model, reverse bool) string {
